@@ -490,6 +490,8 @@ class Executor:
         m = re.fullmatch(r"(-?\d+)_(\w+)", t)
         if m and m.group(2) in INT_TYPES:
             return const_int(int(m.group(1)), m.group(2))
+        if re.fullmatch(r"-?[\d.]+(?:[eE][-+]?\d+)?f(?:64|32)", t):
+            return Opaque("float_const:" + t, "f64")
         if t == "true":
             return z3.BoolVal(True)
         if t == "false":
@@ -622,12 +624,22 @@ class Executor:
             return I(z3.Extract(w - 1, 0, v.bv), s)
         return I(z3.SignExt(w - v.width, v.bv) if v.signed else z3.ZeroExt(w - v.width, v.bv), s)
 
+    @staticmethod
+    def is_float(x):
+        return isinstance(x, Opaque) and x.ty in ("f64", "f32")
+
     def binop(self, op, a, b):
         if isinstance(a, z3.BoolRef) or isinstance(b, z3.BoolRef):
             a = a if isinstance(a, z3.BoolRef) else (a.bv != 0)
             b = b if isinstance(b, z3.BoolRef) else (b.bv != 0)
             return {"Eq": a == b, "Ne": a != b, "BitAnd": z3.And(a, b), "BitOr": z3.Or(a, b), "BitXor": z3.Xor(a, b),
                     "Lt": z3.And(z3.Not(a), b), "Le": z3.Or(z3.Not(a), b), "Gt": z3.And(a, z3.Not(b)), "Ge": z3.Or(a, z3.Not(b))}[op]
+        if self.is_float(a) or self.is_float(b):
+            # floating point is not modelled: every float result is an arbitrary value (sound over-approximation)
+            n = next(self.fresh_counter)
+            if op in ("Eq", "Ne", "Lt", "Le", "Gt", "Ge"):
+                return z3.Bool("fcmp!%d" % n)
+            return Opaque("float!%d" % n, "f64")
         if not (isinstance(a, I) and isinstance(b, I)):
             raise Unsupported("binop %s on %s,%s" % (op, type(a).__name__, type(b).__name__))
         s, w = a.signed, a.width
@@ -737,11 +749,14 @@ class Executor:
                 if isinstance(v, EnumV):
                     d = self.discr_of(v)
                     v = d if isinstance(d, I) else I(bv(d, 64), True)
+                if self.is_float(v):
+                    w_, s_ = INT_TYPES[ty]
+                    return I(z3.BitVec("float_to_int!%d" % next(self.fresh_counter), w_), s_)
                 return self.cast_int(v, ty)
             if rv[3].startswith(("PointerCoercion", "Transmute", "PtrToPtr", "Unsize")):
                 return v
             if ty in ("f64", "f32"):
-                raise Unsupported("float cast")
+                return Opaque("float!%d" % next(self.fresh_counter), "f64")
             return v
         if k == "discriminant":
             v = self.read_place(st, rv[1])
@@ -817,7 +832,30 @@ class Executor:
                 return Agg("struct", path, ops)
             return Agg("struct", path, ops)
         if k == "closure":
-            return Agg("closure", rv[1], [self.eval_operand(st, o) for o in rv[2]])
+            ops = list(rv[2])
+            need = self._closure_upvar_types(rv[1])
+            if need and len(ops) < len(need) and ops and ops[-1][0] in ("move", "copy") and ops[-1][1][0] == "local":
+                # rustc's MIR printer zips capture NAMES with operands and drops operands when one variable is captured
+                # through several disjoint fields (`self.a`, `self.b` -> one name `self`): the missing operands are the
+                # temporaries numbered right after the last printed one; accept them only if their declared types are
+                # exactly the types the closure body reads its remaining captures at
+                fr = st.frames[-1]
+                mm = re.fullmatch(r"_(\d+)", ops[-1][1][1])
+                if mm:
+                    nxt = int(mm.group(1))
+                    extra = []
+                    for want in need[len(ops):]:
+                        nxt += 1
+                        loc = "_%d" % nxt
+                        have = (fr.body.locals.get(loc) or "").replace(" ", "")
+                        if loc in fr.locals and want and have == want.replace(" ", ""):
+                            extra.append(("move", ("local", loc)))
+                        else:
+                            extra = None
+                            break
+                    if extra:
+                        ops += extra
+            return Agg("closure", rv[1], [self.eval_operand(st, o) for o in ops])
         raise Unsupported("rvalue " + str(rv)[:80])
 
     def deref_value(self, v):
@@ -1221,6 +1259,35 @@ class Executor:
                 except Unsupported:
                     pass
         return self.finish_call(st, dest, res, ret_bb, callee, args)
+
+    def _closure_upvar_types(self, clo_ty):
+        """types at which the closure's body reads its captures, by capture index (None where unknown)"""
+        cache = self.__dict__.setdefault("_clo_upvars", {})
+        if clo_ty in cache:
+            return cache[clo_ty]
+        key = clo_ty.strip("{}").split(" ")[0]
+        c = [b for n, bl in self.bodies.items() for b in bl if b.args and key in b.args[0][1] and "{closure#" in n]
+        out = None
+        if len(c) == 1:
+            found = {}
+
+            def walk(x):
+                if isinstance(x, tuple):
+                    if len(x) >= 4 and x[0] == "field" and x[1] in (("deref", ("local", "_1")), ("local", "_1")) and isinstance(x[2], int):
+                        found.setdefault(x[2], x[3])
+                    for y in x:
+                        walk(y)
+                elif isinstance(x, (list, dict)):
+                    for y in (x.values() if isinstance(x, dict) else x):
+                        walk(y)
+            for blk in c[0].blocks.values():
+                for stt in blk.stmts:
+                    walk(stt)
+                walk(blk.term)
+            if found:
+                out = [found.get(i) for i in range(max(found) + 1)]
+        cache[clo_ty] = out
+        return out
 
     def closure_body(self, clo):
         """MIR body of a closure value (matched on the `{closure@file:line:col}` type text)"""
